@@ -148,16 +148,25 @@ corresponding cell of every row, in row order, converted to the final dtype -/
 def specCols (o : Opts N D) (f : File N D V) : List (Col N D V) :=
   (selected o f.schema).map (fun s => Col.mk s.2.1 s.2.2.2 ((colT f.rows s.1).map (cast s.2.2.1 s.2.2.2)))
 
-theorem ctorNd_ok (o : Opts N D) (f : File N D V) (hf : WF f) :
-    ctorNd cast o f = .ok ⟨specCols cast o f, arrLen (specCols cast o f)⟩ := by
+variable (castX : D → D → V → Except Err V)
+
+/-- the agreement-domain guard: on every cell of every kept field of the table the conversion path
+`castX` (np.copyto resp. element assignment) succeeds with numpy's value conversion `cast` -/
+def CastOK (o : Opts N D) (f : File N D V) : Prop :=
+  ∀ s ∈ selected o f.schema, ∀ v ∈ colT f.rows s.1,
+    castX s.2.2.1 s.2.2.2 v = .ok (cast s.2.2.1 s.2.2.2 v)
+
+theorem ctorNd_ok (o : Opts N D) (f : File N D V) (hf : WF f) (hc : CastOK cast castX o f) :
+    ctorNd castX o f = .ok ⟨specCols cast o f, arrLen (specCols cast o f)⟩ := by
   unfold ctorNd
   rw [mapE_ok_of_forall _
     (fun s => Col.mk s.2.1 s.2.2.2 ((colT f.rows s.1).map (cast s.2.2.1 s.2.2.2))) (selected o f.schema)]
   · rfl
   · intro s hs
     have hlt := selected_idx_lt o f.schema s hs
-    have hc := column_ok f.rows s.1 (fun r hr => by rw [hf r hr]; exact hlt)
-    simp [hc]
+    have hcol := column_ok f.rows s.1 (fun r hr => by rw [hf r hr]; exact hlt)
+    have hm := mapE_ok_of_forall (castX s.2.2.1 s.2.2.2) (cast s.2.2.1 s.2.2.2) (colT f.rows s.1) (hc s hs)
+    simp [hcol, hm]
 
 /-! ### the memory-efficient row loop -/
 
@@ -175,17 +184,20 @@ def dataOf (sel : List (Nat × N × D × D)) (done : List (List V)) (pad : Nat) 
 omit [DecidableEq N] [DecidableEq D] in
 /-- one pass of the inner loop: the values of row `row` are written at index `done.length` -/
 theorem row_step (sel : List (Nat × N × D × D)) (done : List (List V)) (row : List V) (p : Nat)
-    (hdone : ∀ s ∈ sel, ∀ r ∈ done, s.1 < r.length) (hrow : ∀ s ∈ sel, s.1 < row.length) :
-    ∃ vals, rowVals cast sel row = .ok vals ∧
+    (hdone : ∀ s ∈ sel, ∀ r ∈ done, s.1 < r.length) (hrow : ∀ s ∈ sel, s.1 < row.length)
+    (hcast : ∀ s ∈ sel, ∀ v, row[s.1]? = some v → castX s.2.2.1 s.2.2.2 v = .ok (cast s.2.2.1 s.2.2.2 v)) :
+    ∃ vals, rowVals castX sel row = .ok vals ∧
       assignRow (dataOf cast sel done (p + 1)) done.length vals = dataOf cast sel (done ++ [row]) p := by
   induction sel with
   | nil => exact ⟨[], rfl, rfl⟩
   | cons s ss ih =>
     obtain ⟨vals, hv, ha⟩ := ih (fun x hx => hdone x (by simp [hx])) (fun x hx => hrow x (by simp [hx]))
+      (fun x hx => hcast x (by simp [hx]))
     have hs : s.1 < row.length := hrow s (by simp)
+    have hcs := hcast s (by simp) row[s.1] (List.getElem?_eq_getElem hs)
     refine ⟨cast s.2.2.1 s.2.2.2 row[s.1] :: vals, ?_, ?_⟩
     · unfold rowVals at hv ⊢
-      simp [mapE, List.getElem?_eq_getElem hs, hv]
+      simp [mapE, List.getElem?_eq_getElem hs, hv, hcs]
     · have hlen : ((colT done s.1).map (cast s.2.2.1 s.2.2.2)).length = done.length := by
         rw [List.length_map]
         exact length_colT done s.1 (hdone s (by simp))
@@ -200,10 +212,12 @@ theorem row_step (sel : List (Nat × N × D × D)) (done : List (List V)) (row :
       simp
 
 omit [DecidableEq N] [DecidableEq D] in
-theorem memRows_ok (f : File N D V) (hf : WF f) (bs : Nat) (sel : List (Nat × N × D × D))
-    (hsel : ∀ s ∈ sel, s.1 < f.schema.length) :
+theorem memRows_ok (f : File N D V) (hf : WF f) (bs : Nat) (hbs : 0 < bs) (sel : List (Nat × N × D × D))
+    (hsel : ∀ s ∈ sel, s.1 < f.schema.length)
+    (hcast : ∀ s ∈ sel, ∀ r ∈ f.rows, ∀ v, r[s.1]? = some v →
+      castX s.2.2.1 s.2.2.2 v = .ok (cast s.2.2.1 s.2.2.2 v)) :
     ∀ (todo done : List (List V)), done ++ todo = f.rows →
-      memRows cast (.ok f) bs sel todo.length done.length f (dataOf cast sel done todo.length) =
+      memRows castX (.ok f) bs sel todo.length done.length f (dataOf cast sel done todo.length) =
         .ok (dataOf cast sel f.rows 0) := by
   intro todo
   induction todo with
@@ -223,13 +237,15 @@ theorem memRows_ok (f : File N D V) (hf : WF f) (bs : Nat) (sel : List (Nat × N
       rw [hf row (hmem row (Or.inr (Or.inl rfl)))]; exact hsel s hs
     have hdonelen : ∀ s ∈ sel, ∀ r ∈ done, s.1 < r.length := fun s hs r hr => by
       rw [hf r (hmem r (Or.inl hr))]; exact hsel s hs
-    obtain ⟨vals, hv, ha⟩ := row_step cast sel done row rest.length hdonelen hrowlen
+    obtain ⟨vals, hv, ha⟩ := row_step cast castX sel done row rest.length hdonelen hrowlen
+      (fun s hs v hv => hcast s hs row (hmem row (Or.inr (Or.inl rfl))) v hv)
+    have hbs' : bs ≠ 0 := by omega
     have hget : f.rows[done.length]? = some row := by
       rw [← h]
       simp
     have hnext := ih (done ++ [row]) (by simp [← h])
     simp only [List.length_append, List.length_cons, List.length_nil] at hnext
-    simp only [List.length_cons, memRows, hget, hv, ha]
+    simp only [List.length_cons, memRows, hget, hv, ha, hbs', if_false]
     split <;> exact hnext
 
 omit [DecidableEq N] [DecidableEq D] in
@@ -251,10 +267,15 @@ theorem mkCols_map (sel : List (Nat × N × D × D)) (g : Nat × N × D × D →
 
 /-- the memory-efficient loader computes the specification columns -/
 theorem loadFileMem_ok (fs : P → Option (File N D V)) (bs : Nat) (p : P) (o : Opts N D) (f : File N D V)
-    (hp : fs p = some f) (hf : WF f) :
-    loadFileMem cast fs bs p o = .ok ⟨specCols cast o f, arrLen (specCols cast o f)⟩ := by
+    (hp : fs p = some f) (hf : WF f) (hbs : 0 < bs) (hc : CastOK cast castX o f) :
+    loadFileMem castX fs bs p o = .ok ⟨specCols cast o f, arrLen (specCols cast o f)⟩ := by
   have hopen : openFile fs p = .ok f := by simp [openFile, hp]
-  have hrows := memRows_ok cast f hf bs (selected o f.schema) (selected_idx_lt o f.schema) f.rows [] rfl
+  have hcast : ∀ s ∈ selected o f.schema, ∀ r ∈ f.rows, ∀ v, r[s.1]? = some v →
+      castX s.2.2.1 s.2.2.2 v = .ok (cast s.2.2.1 s.2.2.2 v) := by
+    intro s hs r hr v hv
+    exact hc s hs v (List.mem_filterMap.mpr ⟨r, hr, hv⟩)
+  have hrows := memRows_ok cast castX f hf bs hbs (selected o f.schema) (selected_idx_lt o f.schema) hcast
+    f.rows [] rfl
   have hdata0 : dataOf cast (selected o f.schema) [] f.rows.length =
       (selected o f.schema).map (fun _ => List.replicate f.rows.length none) := by
     simp [dataOf, colT]
@@ -422,24 +443,36 @@ theorem filterMap_eq_map_of_forall {α β : Type} (f : α → Option β) (g : α
     have ha := h a (by simp)
     simp [ha, ih (fun x hx => h x (by simp [hx]))]
 
-theorem ctorPq_spec (o : Opts N D) (sch : List (N × D)) (rows : List (List V)) :
-    ctorPq cast o (pqOf o.keep sch rows) = specArr cast o ⟨sch, rows⟩ := by
+theorem ctorPq_spec (o : Opts N D) (sch : List (N × D)) (rows : List (List V))
+    (hc : CastOK cast castX o ⟨sch, rows⟩) :
+    ctorPq castX o (pqOf o.keep sch rows) = .ok (specArr cast o ⟨sch, rows⟩) := by
   have hkept : ∀ s ∈ sel₀ o.keep sch, isKept o.keep s.2.1 = true := by
     intro s hs
     exact (selectedFrom_idx _ 0 sch s hs).2.2.2.1
-  unfold sel₀ selected at hkept
-  have hcols : (pqOf o.keep sch rows).filterMap (fun c =>
-      if isKept o.keep c.1 then
-        some (Col.mk c.1 (targetDt o.conv o.exc c.1 c.2.1)
-          (c.2.2.map (cast c.2.1 (targetDt o.conv o.exc c.1 c.2.1))))
-      else none) = specCols cast o ⟨sch, rows⟩ := by
-    unfold pqOf specCols selected
-    rw [selectedFrom_eq_map o 0 sch, List.filterMap_map, List.map_map]
-    apply filterMap_eq_map_of_forall
-    intro s hs
-    have := hkept s hs
-    simp [this]
-  unfold ctorPq specArr
-  simp only [hcols]
+  have hfilter : (pqOf o.keep sch rows).filter (fun c => isKept o.keep c.1) = pqOf o.keep sch rows := by
+    rw [List.filter_eq_self]
+    intro c hcm
+    simp only [pqOf, List.mem_map] at hcm
+    obtain ⟨s, hs, rfl⟩ := hcm
+    exact hkept s hs
+  have hsel : selected o sch = (sel₀ o.keep sch).map
+      (fun s => (s.1, s.2.1, s.2.2.1, targetDt o.conv o.exc s.2.1 s.2.2.1)) := by
+    unfold selected sel₀ selected
+    exact selectedFrom_eq_map o 0 sch
+  unfold ctorPq
+  rw [hfilter]
+  unfold pqOf
+  rw [mapE_map]
+  rw [mapE_ok_of_forall _ (fun s => Col.mk s.2.1 (targetDt o.conv o.exc s.2.1 s.2.2.1)
+      ((colT rows s.1).map (cast s.2.2.1 (targetDt o.conv o.exc s.2.1 s.2.2.1)))) (sel₀ o.keep sch)]
+  · simp only [specArr, specCols, hsel, List.map_map]
+    rfl
+  · intro s hs
+    have hmem : (s.1, s.2.1, s.2.2.1, targetDt o.conv o.exc s.2.1 s.2.2.1) ∈ selected o sch := by
+      rw [hsel]
+      exact List.mem_map.mpr ⟨s, hs, rfl⟩
+    have hm := mapE_ok_of_forall (castX s.2.2.1 (targetDt o.conv o.exc s.2.1 s.2.2.1))
+      (cast s.2.2.1 (targetDt o.conv o.exc s.2.1 s.2.2.1)) (colT rows s.1) (hc _ hmem)
+    simp [hm]
 
 end C17
